@@ -12,7 +12,8 @@ open Oq3.Gen.Ops (Assoc)
 
 /-- first tokens of the statements that `stmt` hands to `expr_stmt` -/
 def exprStmtFirst (k : SyntaxKind) : Bool :=
-  k == .IDENT || k == .INT_NUMBER || k == .L_PAREN || k == .TILDE || k == .BANG || k == .MINUS || k == .MEASURE_KW
+  k == .IDENT || k == .INT_NUMBER || k == .L_PAREN || k == .TILDE || k == .BANG || k == .MINUS || k == .MEASURE_KW ||
+    k == .RETURN_KW
 
 theorem ov_rebase (s : P) (X : List Ev) (n st sb lv : Nat) (pr : List Nat) :
     s.ov X n st sb lv pr = (s.ov X n st sb lv pr).ov [] 0 st sb lv pr := by
@@ -67,7 +68,7 @@ theorem stmt_wrap (f : Nat) (s : P) (hr : Rdy 8 s) (k0 : SyntaxKind) (hk0 : expr
     rfl
   simp only [exprStmtFirst, Bool.or_eq_true, beq_iff_eq] at hk0
   refine ⟨0, 2, Nat.zero_le _, of_ov _ _ _ ?_⟩
-  rcases hk0 with (((((hk | hk) | hk) | hk) | hk) | hk) | hk <;> subst hk <;>
+  rcases hk0 with ((((((hk | hk) | hk) | hk) | hk) | hk) | hk) | hk <;> subst hk <;>
   sym_eval [filter_base s hpr, contains_base s hpr, h0, hsub', hkr, hpre, hcomp, h1semi, setEv_size, setEv_kindAt, setEv_pos,
     setEv_npl, setEv_stepLimit, filter_base s₁ hpr₁, contains_base s₁ hpr₁, bne_self_eq_false]
   all_goals exact hfin 2
